@@ -70,7 +70,7 @@ AppSend(g) ==
   /\ snd' = [snd EXCEPT ![g] = [st |-> "locking", pid |-> 100 + nsend]]
   /\ muq' = Append(muq, g) /\ nsend' = nsend + 1
   /\ ev' = [Ev("SendCall") EXCEPT !.g = g, !.pid = 100 + nsend] /\ act' = Act("send", g, 0)
-  /\ UNCHANGED <<now, mu, srv, workers, retained, rxq, sockOpen, inbOpen, starting, queued, reader, got, delivered, nind, nbusy, nlost, nfail>>
+  /\ UNCHANGED <<now, mu, srv, workers, retained, rxq, sockOpen, inbOpen, starting, queued, reader, got, delivered, nind, nbusy, nlost, nfail, tfire>>
 
 \* Lock acquired and the socket write: one step (the Out event is recorded under the lock)
 Transmit(pid, ok) ==
@@ -86,20 +86,20 @@ SendTx(g) ==
        /\ snd' = [snd EXCEPT ![g].st = IF ok THEN "ok" ELSE "err"]
        /\ nfail' = IF ok \/ ~sockOpen THEN nfail ELSE nfail + 1
        /\ act' = Act(IF ok THEN "internal" ELSE "failsend", g, 0)
-  /\ UNCHANGED <<now, srv, workers, rxq, sockOpen, inbOpen, starting, queued, reader, got, delivered, nsend, nind, nbusy, nlost>>
+  /\ UNCHANGED <<now, srv, workers, rxq, sockOpen, inbOpen, starting, queued, reader, got, delivered, nsend, nind, nbusy, nlost, tfire>>
 
 SendReturn(g) ==
   /\ snd[g].st \in {"ok", "err"}
   /\ ev' = [Ev("SendRet") EXCEPT !.g = g, !.pid = snd[g].pid, !.s = IF snd[g].st = "ok" THEN "ok" ELSE "sockerr"]
   /\ snd' = [snd EXCEPT ![g] = [st |-> "idle", pid |-> -1]]
   /\ act' = Act("internal", g, 0)
-  /\ UNCHANGED <<now, mu, muq, srv, workers, retained, rxq, sockOpen, inbOpen, starting, queued, reader, got, delivered, nsend, nind, nbusy, nlost, nfail>>
+  /\ UNCHANGED <<now, mu, muq, srv, workers, retained, rxq, sockOpen, inbOpen, starting, queued, reader, got, delivered, nsend, nind, nbusy, nlost, nfail, tfire>>
 
 \* the deferred goroutine: sleep(pause) unless the send failed, then Unlock; also the busy timer
 Unlock ==
   /\ mu.h \in {"pause", "unlock", "busy"} /\ mu.until <= now
   /\ mu' = Free
-  /\ ev' = NoEv /\ act' = Act("timer", 0, 0)
+  /\ ev' = NoEv /\ act' = Act("timer", 0, 0) /\ tfire' = now
   /\ UNCHANGED <<now, muq, snd, srv, workers, retained, rxq, sockOpen, inbOpen, starting, queued, reader, got, delivered, nsend, nind, nbusy, nlost, nfail>>
 
 -----------------------------------------------------------------------------
@@ -121,20 +121,20 @@ SrvTake ==
           [] f.svc = "RoutingLost" -> srv' = [pc |-> "lost", a |-> f.a, c |-> -1] /\ muq' = Append(muq, SrvL)
   \* "enq": a goroutine joins the queue for the send mutex. Two of them at one instant race in the Go runtime.
   /\ act' = IF Head(rxq).svc = "RoutingLost" THEN EnqAct ELSE Act("take", 0, 0)
-  /\ UNCHANGED <<now, mu, snd, workers, retained, sockOpen, inbOpen, starting, queued, reader, got, delivered, nsend, nind, nbusy, nlost, nfail>>
+  /\ UNCHANGED <<now, mu, snd, workers, retained, sockOpen, inbOpen, starting, queued, reader, got, delivered, nsend, nind, nbusy, nlost, nfail, tfire>>
 
 SrvPush ==
   /\ srv.pc = "push"
   /\ Push(srv.a)
   /\ srv' = [pc |-> "idle", a |-> -1, c |-> -1]
   /\ act' = Act("internal", 0, 0)
-  /\ UNCHANGED <<now, mu, muq, snd, workers, retained, rxq, sockOpen, inbOpen, delivered, nsend, nind, nbusy, nlost, nfail>>
+  /\ UNCHANGED <<now, mu, muq, snd, workers, retained, rxq, sockOpen, inbOpen, delivered, nsend, nind, nbusy, nlost, nfail, tfire>>
 
 SrvBusyWait ==
   /\ srv.pc = "busyw"
   /\ srv' = [srv EXCEPT !.pc = "busy"] /\ muq' = Append(muq, SrvB)
   /\ ev' = [Ev("Hook") EXCEPT !.s = "busy-wait"] /\ act' = EnqAct
-  /\ UNCHANGED <<now, mu, snd, workers, retained, rxq, sockOpen, inbOpen, starting, queued, reader, got, delivered, nsend, nind, nbusy, nlost, nfail>>
+  /\ UNCHANGED <<now, mu, snd, workers, retained, rxq, sockOpen, inbOpen, starting, queued, reader, got, delivered, nsend, nind, nbusy, nlost, nfail, tfire>>
 
 \* sendMu.Lock(); waitTime = min(WaitTime + random, cap); AfterFunc(waitTime, Unlock)
 SrvBusyAcquire ==
@@ -145,7 +145,7 @@ SrvBusyAcquire ==
        /\ ev' = [Ev("Hook") EXCEPT !.s = "busy-locked", !.a = w * Unit]
   /\ srv' = [pc |-> "idle", a |-> -1, c |-> -1]
   /\ act' = Act("internal", 0, 0)
-  /\ UNCHANGED <<now, snd, workers, retained, rxq, sockOpen, inbOpen, starting, queued, reader, got, delivered, nsend, nind, nbusy, nlost, nfail>>
+  /\ UNCHANGED <<now, snd, workers, retained, rxq, sockOpen, inbOpen, starting, queued, reader, got, delivered, nsend, nind, nbusy, nlost, nfail, tfire>>
 
 \* resendLost: lock; pop the last min(count, len) messages; go sendMultiple; unlock
 SrvLostAcquire ==
@@ -157,7 +157,7 @@ SrvLostAcquire ==
   /\ ev' = [Ev("Hook") EXCEPT !.s = "lost-locked", !.a = srv.a]
   /\ srv' = [pc |-> "idle", a |-> -1, c |-> -1]
   /\ act' = Act("internal", 0, 0)
-  /\ UNCHANGED <<now, mu, snd, rxq, sockOpen, inbOpen, starting, queued, reader, got, delivered, nsend, nind, nbusy, nlost, nfail>>
+  /\ UNCHANGED <<now, mu, snd, rxq, sockOpen, inbOpen, starting, queued, reader, got, delivered, nsend, nind, nbusy, nlost, nfail, tfire>>
 
 \* sendMultiple: router.Send(message) for each, errors ignored
 WorkerLock(i) ==
@@ -165,7 +165,7 @@ WorkerLock(i) ==
   /\ workers' = [workers EXCEPT ![i].st = "locking"]
   /\ muq' = Append(muq, Wk(i))
   /\ ev' = NoEv /\ act' = EnqAct
-  /\ UNCHANGED <<now, mu, snd, srv, retained, rxq, sockOpen, inbOpen, starting, queued, reader, got, delivered, nsend, nind, nbusy, nlost, nfail>>
+  /\ UNCHANGED <<now, mu, snd, srv, retained, rxq, sockOpen, inbOpen, starting, queued, reader, got, delivered, nsend, nind, nbusy, nlost, nfail, tfire>>
 
 WorkerTx(i) ==
   /\ workers[i].st = "locking" /\ mu.h = "none" /\ Len(muq) > 0 /\ Head(muq) = Wk(i)
@@ -173,7 +173,7 @@ WorkerTx(i) ==
   /\ Transmit(Head(workers[i].todo), sockOpen)
   /\ workers' = [workers EXCEPT ![i] = [todo |-> Tail(workers[i].todo), st |-> "ready"]]
   /\ act' = Act("internal", 0, 0)
-  /\ UNCHANGED <<now, snd, srv, rxq, sockOpen, inbOpen, starting, queued, reader, got, delivered, nsend, nind, nbusy, nlost, nfail>>
+  /\ UNCHANGED <<now, snd, srv, rxq, sockOpen, inbOpen, starting, queued, reader, got, delivered, nsend, nind, nbusy, nlost, nfail, tfire>>
 
 SrvExit ==
   /\ srv.pc = "idle" /\ ~sockOpen /\ Len(rxq) = 0
@@ -181,7 +181,7 @@ SrvExit ==
   /\ inbOpen' = FALSE /\ queued' = << >> /\ starting' = {}
   /\ reader' = IF reader = "waiting" THEN "idle" ELSE reader
   /\ ev' = NoEv /\ act' = Act("internal", 0, 0)
-  /\ UNCHANGED <<now, mu, muq, snd, workers, retained, rxq, sockOpen, got, delivered, nsend, nind, nbusy, nlost, nfail>>
+  /\ UNCHANGED <<now, mu, muq, snd, workers, retained, rxq, sockOpen, got, delivered, nsend, nind, nbusy, nlost, nfail, tfire>>
 
 -----------------------------------------------------------------------------
 (* inbound hand-off *)
@@ -193,20 +193,20 @@ ParkReach ==
           ELSE /\ queued' = Append(queued, p) /\ UNCHANGED <<got, reader>>
   \* several helper goroutines on their way to the channel: which one gets there first is the runtime's choice
   /\ ev' = NoEv /\ act' = Act(IF Cardinality(starting) > 1 THEN "choice" ELSE "internal", 0, 0)
-  /\ UNCHANGED <<now, mu, muq, snd, srv, workers, retained, rxq, sockOpen, inbOpen, delivered, nsend, nind, nbusy, nlost, nfail>>
+  /\ UNCHANGED <<now, mu, muq, snd, srv, workers, retained, rxq, sockOpen, inbOpen, delivered, nsend, nind, nbusy, nlost, nfail, tfire>>
 
 AppRecv ==
   /\ reader = "idle" /\ inbOpen
   /\ IF Len(queued) > 0 THEN /\ got' = Head(queued) /\ queued' = Tail(queued) /\ reader' = "got"
      ELSE /\ reader' = "waiting" /\ UNCHANGED <<got, queued>>
   /\ ev' = NoEv /\ act' = Act("recv", 0, 0)
-  /\ UNCHANGED <<now, mu, muq, snd, srv, workers, retained, rxq, sockOpen, inbOpen, starting, delivered, nsend, nind, nbusy, nlost, nfail>>
+  /\ UNCHANGED <<now, mu, muq, snd, srv, workers, retained, rxq, sockOpen, inbOpen, starting, delivered, nsend, nind, nbusy, nlost, nfail, tfire>>
 
 AppRecvRet ==
   /\ reader = "got"
   /\ delivered' = Append(delivered, got) /\ reader' = "idle" /\ got' = -1
   /\ ev' = [Ev("Recv") EXCEPT !.pid = got] /\ act' = Act("internal", 0, 0)
-  /\ UNCHANGED <<now, mu, muq, snd, srv, workers, retained, rxq, sockOpen, inbOpen, starting, queued, nsend, nind, nbusy, nlost, nfail>>
+  /\ UNCHANGED <<now, mu, muq, snd, srv, workers, retained, rxq, sockOpen, inbOpen, starting, queued, nsend, nind, nbusy, nlost, nfail, tfire>>
 
 -----------------------------------------------------------------------------
 (* environment *)
@@ -225,14 +225,14 @@ Arrive ==
              /\ rxq' = Append(rxq, [svc |-> "RoutingLost", pid |-> -1, a |-> k, c |-> -1])
              /\ act' = Act("lost", k, 0)
   /\ ev' = NoEv
-  /\ UNCHANGED <<now, mu, muq, snd, srv, workers, retained, sockOpen, inbOpen, starting, queued, reader, got, delivered, nsend, nfail>>
+  /\ UNCHANGED <<now, mu, muq, snd, srv, workers, retained, sockOpen, inbOpen, starting, queued, reader, got, delivered, nsend, nfail, tfire>>
 
 CloseSock ==
   /\ EnableClose /\ sockOpen
   /\ sockOpen' = FALSE
   /\ rxq' = << >>       \* frames the serve loop had not taken yet are dropped with the socket (its receiver ends)
   /\ ev' = Ev("SockClose") /\ act' = Act("close", 0, 0)
-  /\ UNCHANGED <<now, mu, muq, snd, srv, workers, retained, inbOpen, starting, queued, reader, got, delivered, nsend, nind, nbusy, nlost, nfail>>
+  /\ UNCHANGED <<now, mu, muq, snd, srv, workers, retained, inbOpen, starting, queued, reader, got, delivered, nsend, nind, nbusy, nlost, nfail, tfire>>
 
 ClientCanStep ==
   \/ srv.pc \in {"push", "busyw"} \/ (srv.pc = "idle" /\ Len(rxq) > 0) \/ (srv.pc = "idle" /\ ~sockOpen /\ Len(rxq) = 0)
@@ -246,7 +246,7 @@ Tick ==
   /\ now < MaxNow /\ ~ClientCanStep
   /\ now' = now + 1
   /\ ev' = NoEv /\ act' = Act("tick", 1, 0)
-  /\ UNCHANGED <<mu, muq, snd, srv, workers, retained, rxq, sockOpen, inbOpen, starting, queued, reader, got, delivered, nsend, nind, nbusy, nlost, nfail>>
+  /\ UNCHANGED <<mu, muq, snd, srv, workers, retained, rxq, sockOpen, inbOpen, starting, queued, reader, got, delivered, nsend, nind, nbusy, nlost, nfail, tfire>>
 
 \* Urgent (conformance generation): the environment moves only when the client is quiet, and only at instants at
 \* which no timer of the client fired. The router can only be replayed in real time (its send mutex is held across
@@ -254,16 +254,15 @@ Tick ==
 \* "environment step" comes first at an instant, so the replay needs instants to be apart, not simultaneous.
 EnvOK == ~Urgent \/ (~ClientCanStep /\ tfire < now)
 
-Next0 ==
+Next ==
   \/ \E g \in Senders : (EnvOK /\ AppSend(g)) \/ SendTx(g) \/ SendReturn(g)
   \/ Unlock \/ SrvTake \/ SrvPush \/ SrvBusyWait \/ SrvBusyAcquire \/ SrvLostAcquire \/ SrvExit
-  \/ \E i \in 1..Len(workers) : WorkerLock(i) \/ WorkerTx(i)
+  \/ \E i \in 1..Len(workers) : WorkerLock(i)
+  \/ \E i \in 1..Len(workers) : WorkerTx(i)
   \/ ParkReach \/ (EnvOK /\ AppRecv) \/ AppRecvRet
   \/ (EnvOK /\ (Arrive \/ CloseSock)) \/ Tick
 
-Next == Next0 /\ tfire' = IF act'.n = "timer" THEN now ELSE tfire
-
-Spec == Init /\ [][Next]_<<vars, tfire>>
+Spec == Init /\ [][Next]_vars
 
 -----------------------------------------------------------------------------
 (* Properties on the specification *)
